@@ -3,6 +3,7 @@
 package portalwire
 
 import (
+	"github.com/VictoriaMetrics/fastcache"
 	"github.com/ethereum/go-ethereum/p2p/enode"
 	bitfield "github.com/OffchainLabs/go-bitfield"
 )
@@ -186,3 +187,34 @@ func vhC19V0AcceptAsCodes() {
 	}
 	vsCover("converted")
 }
+
+// NewPortalProtocol -> getOrStoreHighestVersion: the version list a node was configured with
+// (its own record's "pv" entry) is the list it negotiates with - same elements, same first-listed
+// (base) version - so a peer that advertises nothing gets the FIRST-LISTED version of that record,
+// whatever the order of the list.
+//
+//verif:harness C19.constructed_base_version unwind=40
+//verif:use node enr fastcache ctor
+//verif:param K=3/4
+func vhC19ConstructedBaseVersion() {
+	la := 1 + vsChoose("la", vsParam("K"))
+	ours := vsBytesN("ours", la)
+	first := ours[0]
+	self := vhNodeWithID(0, ours, enode.ID(vsArr32("self-id")))
+	vmSelfNode = self
+	cfg := DefaultPortalProtocolConfig()
+	p, err := NewPortalProtocol(cfg, History, nil, nil, new(enode.LocalNode), nil, nil, nil, nil, vhVersionCache())
+	vsAssert(err == nil && p != nil, "constructed")
+	peer := vhNodeWithID(1, nil, enode.ID(vsArr32("peer-id")))
+	v, verr := p.getOrStoreHighestVersion(peer)
+	vsAssert(verr == nil && v == first, "absent-key-gives-first-listed-version-of-own-record")
+	vsCover("constructed-and-negotiated")
+}
+
+// Constructor environment: caches are fresh empty objects (the fastcache model keys on identity).
+//
+//verif:group ctor
+//verif:model github.com/VictoriaMetrics/fastcache.New = vmFCNew
+func vgCtor() {}
+
+func vmFCNew(maxBytes int) *fastcache.Cache { return new(fastcache.Cache) }
